@@ -91,7 +91,7 @@ pub const SHAPES: &[&str] = &[
     "nest-noselector", "nest-selector", "nest-nth-of-type", "stray-end-tags", "long-tag-name", "long-comment", "long-attr", "long-text",
     "many-attrs", "many-selectors", "deep-not-selector", "nest-close-all", "many-text-nodes-sjis",
     "deep-not-selector-after-escaped-dquote", "deep-not-selector-after-escaped-squote", "deep-not-selector-after-escaped-ident", "deep-not-selector-in-list",
-    "deep-not-selector-after-quote-in-comment", "deep-not-selector-after-bad-string",
+    "deep-not-selector-after-quote-in-comment", "deep-not-selector-after-bad-string", "deep-not-selector-after-escaped-quote-in-ident",
     "many-selectors-distinct", "big-insert-legacy", "big-insert-utf8", "big-streaming-insert-legacy", "big-attr-value-set",
 ];
 
@@ -149,6 +149,7 @@ pub fn shape_child(shape: &str, n: usize) -> i32 {
                 "deep-not-selector-after-escaped-ident" => "a\\(b",
                 "deep-not-selector-in-list" => "b, [k=\")\"]",
                 "deep-not-selector-after-quote-in-comment" => "a/*\"*/",
+                "deep-not-selector-after-escaped-quote-in-ident" => "a\\\".c\\'d#x\\'",
                 "deep-not-selector-after-bad-string" => "a[k=\"x\n],b",
                 _ => "",
             };
